@@ -23,7 +23,7 @@ RULE = ("model-based histories against a model V3 device (configuration: max con
         "for that call; (2) every type-6 packet decrypts with a valid tag under the latest session key of its own connection "
         "that the client could complete (older key only after a handshake the client had to reject: counted as stale-session), "
         "never under another connection's key, never undecodable; (3) counters start at 0, advance by one, wrap to 0 only from "
-        "2^k-1 with one k <= 16 per process; (4) no data packet more than 12 h after the last genuine handshake of its "
+        "2^k-1 with one k in 8..16 per process; (4) no data packet more than 12 h after the last genuine handshake of its "
         "connection or (when configured) more than the lifetime after its connection was opened (slack: one exchange; the first transmission of a request that the library held back for more than 0.3 s without a handshake of its own must still find the session valid). Long "
         "sessions: >= 4200 (quick) / 66000 (thorough) exchanges on one connection (also followed by the 12 h re-authentication on that connection) and 70000 protocol-level writes. "
         "Non-trivial: the history contains a fault or expiry followed by a successful data exchange. Distinct by (config, events).")
@@ -79,8 +79,9 @@ def monitor(dev, hs_notes: dict, lifetime, uncompletable: set, calls: dict = Non
                 pass
             elif c == 0:
                 k = (prev + 1).bit_length() - 1
-                if (prev + 1) != (1 << k) or k > 16:
-                    return ("counter/wrap", f"counter wrapped to 0 after {prev} (not 2^k-1)")
+                if (prev + 1) != (1 << k) or k > 16 or k < 8:
+                    # (a counter that "wraps" after fewer than 256 packets - in the extreme one that never leaves 0 - is not a counter)
+                    return ("counter/wrap", f"counter wrapped to 0 after {prev} (not 2^k-1 with 8 <= k <= 16)")
                 if wrap_k is not None and wrap_k != k:
                     return ("counter/wrap-k", f"counter wraps at different widths 2^{wrap_k} and 2^{k}")
                 wrap_k = k
@@ -341,7 +342,7 @@ def check_long(case: dict):
                     return ("counter/start", f"first counter {c}")
             elif c == prev + 1:
                 pass
-            elif c == 0 and (prev + 1) & prev == 0:
+            elif c == 0 and (prev + 1) & prev == 0 and prev >= 255:
                 k = (prev + 1).bit_length() - 1
                 if wrap_k not in (None, k) or k > 16:
                     return ("counter/wrap-k", f"wrap after {prev}")
